@@ -52,7 +52,7 @@ VIOLATION_KINDS = [
     ('might not be allowed at this program point', 'assertion'),
 ]
 INCONCLUSIVE_PATTERNS = ['rlimit', 'Resource limit', 'timed out', 'not supported', 'unsupported', 'does not yet support',
-                         'does not support', 'not yet supported', 'unimplemented']
+                         'does not support', 'not yet supported', 'unimplemented', 'must have a decreases clause']
 
 
 def sh(cmd, **kw):
@@ -536,9 +536,21 @@ def _run(pid, P, tier, seed, scratch, t0):
                 rel_fail.append(pf)
             else:
                 inconclusive.append(dict(message='UNDECIDED clause %s: `%s` %s' % (c['id'], q, undecided_fns[q]), rendered='', cfg=''))
-    if pid in SAFETY_PROPS:
-        for q in undecided_fns:
-            inconclusive.append(dict(message='UNDECIDED safety of `%s`: %s' % (q, undecided_fns[q]), rendered='', cfg=''))
+    if pid in SAFETY_PROPS and undecided_fns:
+        # panic freedom of a function the verifier could not read this run: a concrete input that panics still settles it
+        pf = dict(id='%s|undecided|SAFETY' % '+'.join(sorted(undecided_fns)), fn=sorted(undecided_fns)[0], kind='undecided', clause='SAFETY.undecided',
+                  cfg=runs[0]['cfg'], message='panic freedom of %s could not be decided (%s) and a concrete input panics'
+                  % (', '.join('`%s`' % q for q in sorted(undecided_fns)), list(undecided_fns.values())[0]), rendered='', repo_file=None, repo_line=None, expr='')
+        try:
+            import witness
+            witness.find(pid, pf, REPO, scratch)
+        except Exception as ex_:
+            pf['witness_error'] = str(ex_)
+        if pf.get('replayed'):
+            rel_fail.append(pf)
+        else:
+            for q in undecided_fns:
+                inconclusive.append(dict(message='UNDECIDED safety of `%s`: %s' % (q, undecided_fns[q]), rendered='', cfg=''))
     if kani:
         for h in kani_obl:
             if h['status'] == 'FAILED':
@@ -607,8 +619,8 @@ def _run(pid, P, tier, seed, scratch, t0):
             tried = set()
             for c in clauses:
                 fam_key = c['id']
-                gen = witness.GENERATED.get(fam_key)
-                ident = id(gen) if gen else (fam_key if fam_key in witness.CANNED else None)
+                gens = witness.generators_for(fam_key)
+                ident = tuple(id(g) for g in gens) if gens else (fam_key if fam_key in witness.CANNED else None)
                 if ident is None or ident in tried:
                     continue
                 tried.add(ident)
